@@ -74,4 +74,42 @@ META = {
         design_ref="DESIGN.md §4 C17",
         note="No sockets: connection is a byte-stream model; payload <= 3 (8) bytes; the accepting side of the 20 MB limit is only checked for tiny frames.",
     ),
+    "C01": dict(
+        text="Bounded model checking of the real BLS DKG (n real TBLS instances with goroutines/condition variables) followed by the real restore/sign/aggregate/verify API for every signer set of size >= t, "
+             "with all DKG randomness symbolic over an exponent-representation model of the curve: each assertion is a polynomial identity decided for every randomness; link-FIFO delivery orders by symbolic choice.",
+        design_ref="DESIGN.md §4 C01",
+        note="Model curve (field Q), n <= 3 (4 thorough), canonical goroutine schedule; orchestrator pass-through asserted in C12's harness; delivery/agreement layers are C02-C04/C07/C14.",
+    ),
+    "C05": dict(
+        text="Bounded model checking: honest parties run the real TBLS.KeyGen against a Byzantine participant whose every message (share per victim, commitment, reveal, omissions, duplicates, phase order) is symbolic; "
+             "consistency of completed parties, joint signing, no reveal before all commitments, no panic.",
+        design_ref="DESIGN.md §4 C05",
+        note="n = 3 (4 thorough), one Byzantine party, model curve, broadcast consistency assumed from C02, collision-free commitment hash.",
+    ),
+    "C08": dict(
+        text="Bounded model checking of the complete honest threshold-PS flow on the real code (DKG, blind, sign on every party, unblind, prove for every signer set >= t, verify) over the model curve with all randomness symbolic.",
+        design_ref="DESIGN.md §4 C08",
+        note="n <= 3, L <= 2 quick (n = 4, L = 3 thorough); party ids 1..n; model curve.",
+    ),
+    "C09": dict(
+        text="Bounded model checking of tamper classes on genuine BLS signatures and PS requests/proofs built from symbolic randomness: universal rejection where acceptance is impossible for every randomness, "
+             "existence of rejection plus a generic concrete point where acceptance is a non-trivial algebraic condition; idempotence and non-mutation asserted. Computational unforgeability is explicitly not claimed.",
+        design_ref="DESIGN.md §4 C09",
+        note="Model curve; hash outputs are solver-chosen (so classes that rely on oracle unpredictability are 'generic'); n = 4, t = 3 (BLS), L = 1 (PS).",
+    ),
+    "C11": dict(
+        text="Bounded model checking of the real TBLS.KeyGen of 3 parties with a symbolic (peer, k) after which the peer is silent and context expiry at quiescence, and of the failure paths of the real Scheme.Sign.",
+        design_ref="DESIGN.md §4 C11",
+        note="One faulty peer; expiry only at quiescence; model curve.",
+    ),
+    "C18": dict(
+        text="Bounded model checking of the real secret-sharing code with symbolic polynomial coefficients: reconstruction, key and signature aggregation for all (n,t) up to 5 (6 thorough) and all subsets, subset coverage as a query over an arbitrary bitmask, detection of one off-polynomial key.",
+        design_ref="DESIGN.md §4 C18",
+        note="Identities over Q (valid in Z_r since denominators are products of differences of evaluation points < 2^16 < r).",
+    ),
+    "C20": dict(
+        text="Happens-before race monitor on the schedules the symbolic scheduler explores for KeyGen || OnMsg (bls) and HandleMessage || Send (msg.Box); every reported pair is confirmed by replaying the solver-found schedule natively (time-slot enforcement) under the Go race detector.",
+        design_ref="DESIGN.md §4 C20",
+        note="Only the harnessed scenarios; <= 2 preemptions; over-approximated happens-before edges (may miss, does not invent).",
+    ),
 }
